@@ -249,6 +249,26 @@ def run_case(ck, desc):
                     continue
                 _close(ck, f"facade.{nm} (unused fields are placeholders)", got_, want_, desc, tol, {"placeholder": repr(ph_)})
         ck.count("single_phase_fluids_with_placeholder_fields", 3)
+        # pressures handed over as ONE-SHOT iterables (a generator, `.flat` of a 2-D grid, map() over text
+        # cells): a method that accepts them answers once per pressure, in order, like the list of the same
+        # values; a method that does not accept them raises, and nothing is claimed
+        plist = [float(x) for x in p]
+        for nm, fobj, extra_ in (("water_FVF", fl, ()), ("water_viscosity", fl, ()), ("oil_FVF", fl, ()), ("oil_viscosity", fl, ()), ("gas_FVF", flg, (Tpc, ppc)), ("gas_viscosity", flg, (Tpc, ppc))):
+            with np.errstate(all="ignore"):
+                want_ = np.asarray(getattr(fobj, nm)(np.array(plist), *extra_), dtype=float)
+            for form, make in (("generator", lambda: (x for x in plist)), ("ndarray.flat", lambda: np.array(plist + plist[:1]).reshape(2, -1).flat), ("map over text", lambda: map(float, [repr(x) for x in plist])), ("iter(list)", lambda: iter(plist))):
+                try:
+                    with np.errstate(all="ignore"):
+                        got_ = np.asarray(getattr(fobj, nm)(make(), *extra_), dtype=float)
+                except Exception as e:  # noqa: BLE001
+                    ck.count(f"one_shot_iterable_not_accepted.{nm}.{type(e).__name__}")
+                    continue
+                w_ = np.concatenate([want_, want_[:1]]) if form == "ndarray.flat" else want_
+                ck.count("one_shot_iterables_answered")
+                if got_.shape != w_.shape:
+                    ck.violation(f"facade.{nm}", {"pressures_as": form, "requested": int(w_.size), "returned": int(got_.size)}, desc)
+                else:
+                    _close(ck, f"facade.{nm} (pressures as a one-shot iterable)", got_, w_, desc, tol, {"pressures_as": form})
         # the same array object edited in place between two calls on the same Fluid (a pressure grid
         # updated by the caller's time loop): the second answer follows the array's CURRENT contents
         p2 = p.astype(float).copy()
